@@ -109,8 +109,8 @@ Serve(s) == [Push(s) EXCEPT !.pc = "Idle", !.c.out = "served", !.c.site = "-"]
 \* a Go panic outside any recover(): the process is gone
 Die(s, site) == [Push(s) EXCEPT !.alive = FALSE, !.c.out = "dead", !.c.site = site]
 \* a loop whose advance is zero: the goroutine never returns to its read;
-\* `alloc`: every iteration appends a 65532-byte slice (cookie fields), so the
-\* process may also die of memory exhaustion
+\* `alloc`: every iteration allocates a 65532-byte slice (cookie fields keep it, unique
+\* identifiers leave it to the collector), so the process may also die of memory exhaustion
 Hang(s, site, alloc) == [Push(s) EXCEPT !.spin = TRUE, !.c.out = IF alloc THEN "hangoom" ELSE "hang", !.c.site = site]
 
 (***************************************************************************)
@@ -166,8 +166,10 @@ Walk(s, sc, maxf, after) ==
       fc == IF Scripted(sc)
             THEN (IF J(s) <= Len(sc.rs) /\ n < Len(sc.rs[J(s)].fs) THEN {sc.rs[J(s)].fs[n + 1]} \cap FieldDomK(s.c.kind, g.fs) ELSE {})
             ELSE (IF n < maxf THEN FieldDomK(s.c.kind, g.fs) ELSE {})
-      \* the loop condition fails: fewer than 28 bytes are left
-      ec == IF Scripted(sc)
+      \* the loop condition fails: fewer than 28 bytes are left (not before the first field: these size
+      \* classes have at least 28 bytes behind the NTP header)
+      ec == IF n = 0 THEN {}
+            ELSE IF Scripted(sc)
             THEN (IF J(s) <= Len(sc.rs) /\ n = Len(sc.rs[J(s)].fs) THEN {sc.rs[J(s)].end} \cap {"short"} ELSE {})
             ELSE {"short"}
       Exit(s1) ==   \* after the loop
@@ -186,7 +188,7 @@ Walk(s, sc, maxf, after) ==
              THEN Fail(s1, "nts.DecodePacket:errLongUniqueID", TRUE)
         ELSE IF f.t = "auth" THEN Exit([s1 EXCEPT !.g.end = "auth"])  \* foundAuthenticator (its Length is not used)
         ELSE IF f.l = "zero"
-             THEN Hang(s1, "nts.DecodePacket:extlen0", f.t = "cookie")
+             THEN Hang(s1, "nts.DecodePacket:extlen0", f.t \in {"cookie", "uid"})
         ELSE IF f.l = "beyond" THEN Exit([s1 EXCEPT !.g.end = "beyond"])
         ELSE s1                                                        \* next iteration
   IN IF g.end # "na" THEN {}
